@@ -268,7 +268,9 @@ func c12(c *Ctx) {
 	b.WriteString(coqHeader + "From Avo Require Import Model.Stub.\n")
 	fmt.Fprintf(&b, "Definition cases : list (sfile * stub_obs) := %s.\n", cListNL(good))
 	b.WriteString("Definition R_mismatch := Eval vm_compute in idx_where (fun c => negb (stub_agree c)) cases.\nPrint R_mismatch.\n")
+	b.WriteString("Definition R_violation := Eval vm_compute in idx_where (fun c => negb (stub_impl_ok c)) cases.\nPrint R_violation.\n")
 	o.WriteFile("Cases.v", b.String())
+	o.ExpectEmpty("Cases.v", "R_violation", "violation", "the stub does not declare the given functions once, in order, with their documentation and directives, in the requested package under the given constraints")
 	o.Stage("Cases.v")
 	o.ExpectEmpty("Cases.v", "R_mismatch", "mismatch", "structured stub model vs the functions, signatures, doc lines, directives, package and constraint line read back from printer.NewStubs output with go/parser")
 	o.Plan.Rule = "random files of 1..4 functions over signatures with structs, arrays, slices, funcs, maps, channels, interfaces, variadics, blank and unnamed parameters/results; doc lines incl. '%', trailing blanks and embedded line breaks; 0..2 directives; with/without constraints; the stub is parsed back (go/parser), type-checked and compared with types.Identical, re-formatted (gofmt stability), and for the first cases built and vetted together with the generated assembly; non-trivial = at least two functions; distinct by description"
